@@ -175,9 +175,10 @@ class Harness(object):
             return t
         if isinstance(e, TypeError) and "Cannot unwrap" in str(e):
             return ["typeerr"]
-        if isinstance(e, AssertionError) and "wasn't set on batch flush" in str(e):
+        # (the NonAsyncContext message embeds str(task), which may quote other exceptions' texts: match exactly)
+        if isinstance(e, AssertionError) and str(e) == "Value of this item wasn't set on batch flush.":
             return ["notset"]
-        if isinstance(e, AssertionError) and "cannot yield while" in str(e):
+        if isinstance(e, AssertionError) and str(e).startswith("Task ") and "cannot yield while" in str(e):
             return ["nonasync"]
         if isinstance(e, RuntimeError) and "exceeded maximum threshold" in str(e):
             return ["stackguard"]
